@@ -233,6 +233,12 @@ func init() {
 	intrinsics[verifrtPath+"Symbolic"] = func(ex *Exec, st *State, f *Frame, fn FuncV, args []Value, retTo ssa.Value, instr ssa.Instruction) bool {
 		return ret(f, retTo, ex.tb.True())
 	}
+	// hash/crc32: use the portable table-driven implementations (the assembly routines have no Go body)
+	for _, n := range []string{"hash/crc32.archAvailableCastagnoli", "hash/crc32.archAvailableIEEE"} {
+		intrinsics[n] = func(ex *Exec, st *State, f *Frame, fn FuncV, args []Value, retTo ssa.Value, instr ssa.Instruction) bool {
+			return ret(f, retTo, ex.tb.False())
+		}
+	}
 	intrinsics[verifrtPath+"Note"] = func(ex *Exec, st *State, f *Frame, fn FuncV, args []Value, retTo ssa.Value, instr ssa.Instruction) bool {
 		return ret(f, retTo, nil)
 	}
